@@ -116,10 +116,10 @@ PROPS = {
         'explanation': 'entry_put keeps the per-author head at the maximum timestamp; remove_replica deletes the heads of the removed document.',
     },
     'C16': {
-        'vx': ['U-rmrep', 'U-bounds'],
+        'vx': ['U-rmrep', 'U-bounds', 'U-hashes', 'U-cap-import'],
         'kx': [KX['U-incr32']],
         'assumptions': [A_REDB, A_INCR, A_MODIFY, 'HashSet<NamespaceId> open_replicas is an abstract set with the std contains/insert/remove contracts'],
-        'not_covered': ['ContentHashesIterator (pending)'],
+        'not_covered': ['engine.rs gc_protect_task (consumer of the content-hash iterator)', 'RecordsRange / snapshot_owned are shells (A-redb)'],
         'explanation': 'remove_replica refuses open documents and otherwise removes exactly the rows of the named document from all six per-document tables, leaving every other row unchanged.',
     },
     'C05': {
